@@ -23,7 +23,7 @@ META = {
     "design_ref": "DESIGN.md section 5 C06",
 }
 
-EXITS = ["", "break", "continue", "return 0"]
+EXITS = ["", "break", "continue", "return 0", "return\n"]       # a bare `return` needs a line end after it
 
 
 def directed(rng, n):
@@ -103,7 +103,7 @@ def run(ctx):
     # JSON-session probe: toplevel return / break inside blocks must not leak (the property's session form)
     hist = []
     i = 0
-    for ex in ["return 1", "break", "continue"]:
+    for ex in ["return 1", "return\n", "break", "continue"]:
         for tpl in ["let q%d = 0 while q%d < 1 { q%d += 1 if True { let s%d = 5 EXIT } }",
                     "for q%d in [1] { let s%d = 5 if True { EXIT } }",
                     "for q%d in [1, 2] { match Some(q%d) { Some(m%d) => { let s%d = m%d EXIT } None => { 0 } } }",
